@@ -149,6 +149,12 @@ class Acc:
         for k, v in (r.get("stats") or {}).items():
             o["obs"][k] = o["obs"].get(k, 0) + v
         o["obs"]["hangs"] = o["obs"].get("hangs", 0) + (1 if r["stop"] == "hang" else 0)
+        nw = sum(1 for e in r["trace"] if e["kind"] == "warm_reuse")
+        if nw:
+            o["obs"]["invocations_served_by_a_reused_warm_process"] = o["obs"].get("invocations_served_by_a_reused_warm_process", 0) + nw
+        na = sum(1 for e in r["trace"] if e.get("after_return"))
+        if na:
+            o["obs"]["events_after_the_handler_returned"] = o["obs"].get("events_after_the_handler_returned", 0) + na
         o["obs"]["stop:" + str(r["stop"])] = o["obs"].get("stop:" + str(r["stop"]), 0) + 1
         if cls:
             o["classes"].add(cls)
